@@ -124,8 +124,15 @@ func runDriver(c *vf.Check, dir string, bin string, env []string, jobs any, n in
 		}
 		// the process died while running job last+1 (or exited after too many timeouts)
 		restarts++
-		if restarts > 200 {
-			vf.Machinery("driver crashed more than 200 times; last error %v\n%s", werr, vf.Trunc(se.String(), 2000))
+		if restarts > 60 {
+			// every crash so far is attributed to its job; the remaining jobs are not run
+			for i := last + 1; i < n; i++ {
+				if res[i].Status == "" {
+					res[i] = jobResult{Status: "notrun"}
+				}
+			}
+			fmt.Printf("driver crashed %d times; %d remaining jobs not run\n", restarts, n-last-1)
+			break
 		}
 		if os.Getenv("VERIF_DEBUG") != "" {
 			fmt.Printf("driver restart %d after job %d: %v\n%s\n", restarts, last+1, werr, vf.Trunc(se.String(), 1500))
